@@ -805,6 +805,9 @@ class Executor:
             o.fields[t.attr] = val
             if hasattr(o, "origin"):
                 oseq, oi = o.origin
+                if t.attr in getattr(self.contract, "ignored_element_fields", ()):
+                    self.dropped.add("store to the element field %s (not modelled: the contract never reads it)" % t.attr)
+                    return
                 if t.attr not in oseq.fields or isinstance(oseq.fields[t.attr], (list, tuple)):
                     raise OutOfSubset("store to undeclared or list-valued field %s of a list element" % t.attr, t)
                 rs = oseq.fields[t.attr].sort().range()
